@@ -885,7 +885,8 @@ class InteractingNetworks(Network):
         cross_degree = self.cross_degree(node_list1, node_list2)
 
         #  Get sparse adjacency matrix
-        A = self.sp_A[node_list1+node_list2, :][:, node_list1+node_list2]
+        nodes = list(node_list1) + list(node_list2)
+        A = self.sp_A[nodes, :][:, nodes]
         #  Get subnetwork sizes
         N1, N2 = len(node_list1), len(node_list2)
         #  Initialize
@@ -1313,7 +1314,8 @@ class InteractingNetworks(Network):
         #  Get cross degree sequence
         cross_degree = self.cross_degree(node_list1, node_list2)
         #  Get full adjacency matrix
-        A = self.sp_A[node_list1+node_list2, :][:, node_list1+node_list2]
+        nodes = list(node_list1) + list(node_list2)
+        A = self.sp_A[nodes, :][:, nodes]
         #  Get layer sizes
         N1, N2 = len(node_list1), len(node_list2)
 
